@@ -169,13 +169,16 @@ PROPS = {
              [],
              "Lean 4 theorems (one abstract symmetry, two instances); differential `mirror v|h` on generated positions ties the model to the code",
              "§6 C18"),
-    "C19": P("proof", "PARTIAL: rookIndex_lt / bishopIndex_lt (the magic lookup index is inside the table for every square and all 2^64 "
-             "occupancies, from x>>>s < 2^(64-s) and a kernel check of the 128 extracted (offset, shift) pairs); every other table is "
-             "indexed by a bounded type; the unchecked square additions of the validator / make-move stay on the board (per-rank facts)",
-             ["semilegal_count_le_256 (SemilegalCountBound) is stated but NOT proved: extremal-combinatorics clause, supported only by "
-              "hill-climbing search through the safe Vec sink and debug-build runs (DESIGN §9)",
-              "(the pawn generators' dst-delta sites: proved in Props/C19_gen)"],
-             "Lean 4 theorems for index ranges; debug-build differential (std unsafe-precondition checks, arrayvec debug_assert) for the rest",
+    "C19": P("proof", "semilegal_count_le_256 / pseudoMoves_le_256 / semilegalCountBound (Props/C19_bound): NO valid position has more than "
+             "256 semilegal moves — proved by forgetting enemy men, a line-by-line automaton for the slider part, and LP-duality "
+             "certificates (one tree per colour and king square, 471 leaves) whose validity the Lean kernel re-checks (Lemmas/Bound; the "
+             "LP solver is not trusted; the bound is nearly tight — a valid position with 242 pseudo-legal moves exists); "
+             "rookIndex_lt / bishopIndex_lt (the magic lookup index is inside the table for every square and all 2^64 occupancies), "
+             "zobrist / square / cell / rights index ranges, on-board lemmas for every unchecked square-arithmetic site of the validator, "
+             "make-move and the pawn generators (Props/C19_gen)",
+             ["'in checked and optimised builds alike': the theorems are about source-level index arithmetic; the compilation itself is exercised by debug and release runs of the harness only"],
+             "Lean 4 theorems (kernel-checked optimisation certificates for the capacity bound; kernel-decided table ranges); differential "
+             "genvec / gen / attackers / atk / index-constructor sweeps on maximal-mobility positions tie the model to the code",
              "§6 C19"),
     "C20": P("proof", "index/text round trips for every value of every finite type; parsers accept exactly the documented spellings (all byte "
              "strings, for coord/cell/colour); rights set algebra; bitboard operations = set operations; ascending iteration (as a filter); "
